@@ -333,6 +333,57 @@ fn parse_k(_case: &Value, inputs: &Value) -> Value {
     }
 }
 
+// classic disassemble -> assemble
+fn classic_text_k(case: &Value, inputs: &Value) -> Value {
+    use chialisp::classic::clvm_tools::binutils::{assemble, disassemble};
+    let mut a = Allocator::new();
+    let n = json_to_tree(&mut a, &inputs["tree"]);
+    let text = disassemble(&a, n, Some(case["version"].as_u64().unwrap() as usize));
+    let back = match assemble(&mut a, &text) {
+        Ok(m) => json!({"ok": tree_to_json(&a, m)}),
+        Err(_) => json!({"err": true}),
+    };
+    json!({"text": to_json_bytes(text.as_bytes()), "back": back})
+}
+
+// modern printer -> modern reader and classic assembler
+fn modern_text_k(case: &Value, inputs: &Value) -> Value {
+    use chialisp::classic::clvm_tools::binutils::assemble;
+    use chialisp::compiler::clvm::{convert_from_clvm_rs, convert_to_clvm_rs, NewStyleIntConversion};
+    use chialisp::compiler::sexp::{parse_sexp, SExp as R};
+    use chialisp::compiler::srcloc::Srcloc;
+    let _guard = NewStyleIntConversion::new(true);
+    let mut a = Allocator::new();
+    let l = Srcloc::start("*t*");
+    let x = bytes_of(&inputs["x"]);
+    let xv: Rc<R> = match case["sp"].as_str().unwrap() {
+        "conv" => { let n = a.new_atom(&x).unwrap(); convert_from_clvm_rs(&mut a, l.clone(), n).unwrap() }
+        "dq" => Rc::new(R::QuotedString(l.clone(), b'"', x.clone())),
+        _ => Rc::new(R::QuotedString(l.clone(), b'\'', x.clone())),
+    };
+    let two = || Rc::new(R::Integer(l.clone(), 2u32.into()));
+    let nil = || Rc::new(R::Nil(l.clone()));
+    let val: Rc<R> = match case["pos"].as_str().unwrap() {
+        "alone" => xv,
+        "head" => Rc::new(R::Cons(l.clone(), xv, Rc::new(R::Cons(l.clone(), two(), nil())))),
+        "second" => Rc::new(R::Cons(l.clone(), two(), Rc::new(R::Cons(l.clone(), xv, nil())))),
+        _ => Rc::new(R::Cons(l.clone(), two(), xv)),
+    };
+    let text = val.to_string();
+    let modern = match parse_sexp(l.clone(), text.bytes()) {
+        Ok(v) if v.len() == 1 => match convert_to_clvm_rs(&mut a, v[0].clone()) {
+            Ok(n) => json!({"ok": tree_to_json(&a, n)}),
+            Err(_) => json!({"err": true}),
+        },
+        _ => json!({"err": true}),
+    };
+    let classic = match assemble(&mut a, &text) {
+        Ok(n) => json!({"ok": tree_to_json(&a, n)}),
+        Err(_) => json!({"err": true}),
+    };
+    json!({"text": to_json_bytes(text.as_bytes()), "modern": modern, "classic": classic})
+}
+
 // assemble(text) -> tree (used to evaluate constant patterns natively)
 fn assemble_k(_case: &Value, inputs: &Value) -> Value {
     let mut a = Allocator::new();
@@ -347,6 +398,8 @@ pub fn dispatch(kernel: &str, case: &Value, inputs: &Value) -> Value {
         "assemble" => assemble_k(case, inputs),
         "int_from_bytes" => int_from_bytes_k(case, inputs),
         "decode" => decode_k(case, inputs),
+        "classic_text" => classic_text_k(case, inputs),
+        "modern_text" => modern_text_k(case, inputs),
         "parse" => parse_k(case, inputs),
         "tables" => tables_k(case, inputs),
         "eqhash" => eqhash_k(case, inputs),
